@@ -6,6 +6,7 @@ import (
 	"errors"
 	"fmt"
 	"os"
+	"regexp"
 	"strconv"
 	"strings"
 	"sync/atomic"
@@ -284,6 +285,75 @@ var atomAlpha = []string{"a", "b", "(", ")", "[", "]", ",", "\"s t\"", "`r`", "/
 
 // ---------------------------------------------------------------- watchdog
 
+// fixerPositions: a version fixer that rejects one marked version; the marker is put in the place of each
+// version token of a set of files in turn. The error that carries the fixer's message must be reported on
+// the line of the token the fixer was called for.
+func fixerPositions(r *fw.Run) {
+	l := fw.NewLocal()
+	defer r.Merge(l)
+	files := []string{
+		"module example.com/m\n\nretract v1.0.0\n\nretract v1.1.0 // why\n\nretract [v1.2.0, v1.3.0]\n",
+		"module example.com/m\n\nretract (\n\tv1.0.0\n\t[v1.1.0, v1.2.0] // r\n\tv1.3.0\n)\n",
+		"retract v1.0.0\n\nretract v1.1.0\n\nmodule example.com/m\n",
+		"module example.com/m\n\nrequire a.com/x v1.0.0\n\nrequire (\n\tb.com/y v1.1.0\n\tc.com/z v1.2.0 // indirect\n)\n",
+		"module example.com/m\n\nexclude a.com/x v1.0.0\n\nexclude (\n\ta.com/x v1.1.0\n\tb.com/y v1.2.0\n)\n",
+		"module example.com/m\n\nreplace a.com/x v1.0.0 => b.com/y v1.1.0\n\nreplace (\n\tb.com/y v1.2.0 => c.com/z v1.3.0\n\tc.com/z => d.com/w v1.4.0\n)\n",
+		"module example.com/m\n\nrequire a.com/x v1.0.0\n\nretract v1.1.0\n\nexclude b.com/y v1.2.0\n\nretract v1.3.0\n",
+	}
+	verRE := regexp.MustCompile(`v1\.[0-9]\.0`)
+	const marker = "v9.9.9"
+	fix := func(path, vers string) (string, error) {
+		if vers == marker {
+			return "", fmt.Errorf("REJECTED-BY-FIXER")
+		}
+		return vers, nil
+	}
+	r.Bounds["fixer_position_files"] = len(files)
+	for fi, src := range files {
+		locs := verRE.FindAllStringIndex(src, -1)
+		for k, loc := range locs {
+			in := src[:loc[0]] + marker + src[loc[1]:]
+			line := 1 + strings.Count(in[:loc[0]], "\n")
+			for _, p := range []struct {
+				name string
+				f    func() error
+			}{
+				{"Parse", func() error { _, err := modfile.Parse("go.mod", []byte(in), fix); return err }},
+				{"ParseLax", func() error { _, err := modfile.ParseLax("go.mod", []byte(in), fix); return err }},
+			} {
+				l.States++
+				l.Execs++
+				l.Transitions++
+				err := p.f()
+				el, _ := err.(modfile.ErrorList)
+				msg := ""
+				found := false
+				for _, e := range el {
+					if strings.Contains(e.Error(), "REJECTED-BY-FIXER") {
+						found = true
+						if e.Pos.Line != line {
+							msg = fmt.Sprintf("%s: the fixer rejected the version on line %d, the error is reported at line %d: %v", p.name, line, e.Pos.Line, e)
+						}
+					}
+				}
+				if err == nil || !found {
+					// a lax parser may ignore the directive altogether; the strict one must report it
+					if p.name == "Parse" {
+						msg = fmt.Sprintf("Parse: the fixer rejected the version on line %d but no error carries its message (err=%v)", line, err)
+					}
+				}
+				if msg != "" {
+					c := caseT{Kind: "fixer-position", Input: strconv.QuoteToASCII(in)}
+					r.Violation(fmt.Sprintf("fixer-position:%d:%d:%s", fi, k, p.name), msg, c)
+				} else {
+					l.Nontrivial++
+					l.Outcomes["fixer-position:ok"]++
+				}
+			}
+		}
+	}
+}
+
 // retention: what a parser call returned (error list, syntax tree) must not change when the parser is
 // called again. Every ordered pair of a small input set through every parser: the first result is
 // rendered, the second input is parsed twice, the first result is rendered again.
@@ -507,6 +577,7 @@ func Run(r *fw.Run) {
 	}
 
 	retention(r)
+	fixerPositions(r)
 
 	// generated files and insertions
 	stmts := modgen.ModStmts()
@@ -620,6 +691,10 @@ func Replay(r *fw.Run, raw json.RawMessage) {
 	r.Transitions.Add(1)
 	r.Execs.Add(5)
 	r.Sample(c)
+	if c.Kind == "fixer-position" {
+		fixerPositions(r)
+		return
+	}
 	if c.Kind == "retention" {
 		retention(r)
 		return
